@@ -186,6 +186,7 @@ pub fn point_name(id: u32) -> &'static str {
         FINALITY_LOCK => "finality.lock",
         VALIDATE_NOTIFY => "validate.notify",
         ERROR_HEAD_CHECK => "error.headcheck",
+        CACHE_CLEAR => "cache.clear",
         HARNESS_DB => "harness.db",
         HARNESS_PRECOMPILE => "harness.precompile",
         HARNESS_ENTRY => "harness.entry",
@@ -399,7 +400,12 @@ fn cmd_replay(args: &[String]) -> i32 {
         flush_results();
     }));
     let known = KnownFindings { keys: vec![] };
-    match run_job(&prop, job, (0, 1), None, Some(devs), &known) {
+    let result = if let Some(seq) = &job.seq {
+        Ok(job::run_seq_job(&prop, job, seq, (0, 1), None, &known, Some(&v["seq_witness"])))
+    } else {
+        run_job(&prop, job, (0, 1), None, Some(devs), &known)
+    };
+    match result {
         Err(e) => {
             eprintln!("MACHINERY-ERROR: {e}");
             2
